@@ -9,7 +9,7 @@ run_one() {
   base=$(basename "$f")
   case "$base" in
     m-*) ids=$(echo "$base" | sed 's/^m-\(C[0-9]*\)-.*/\1/');;
-    *) ids=$(grep -F "$(echo "$base" | cut -d- -f2)" mutants/revert-map.txt | cut -d' ' -f2-);;
+    *) ids=$(grep -F "$(echo "$base" | cut -d- -f2)" mutants/revert-map.txt | cut -d' ' -f3-);;
   esac
   for id in $ids; do
     SELFTEST_SUITE=1 ./selftest "$f" "$id" 2>&1 | grep -E "^(CAUGHT|MISSED|suite:|PATCH-FAILED|MUTANT)" | tr '\n' ' '
